@@ -63,7 +63,7 @@ def check(ctx, clause):
                               for t in ts):
                     continue     # typed receiver that cannot be a choice statement
                 n += 1
-                key = "R-TS|choice-read|%s|%s" % (f.short, norm(x))
+                key = "R-TS|choice-read|%s|%s" % (f.short, f.key(x))
                 if any(o.key == key for o in obs):
                     continue
                 dispatch = f.cls is not None and base_ser in f.cls.mro() and f.cls is not choice_ser \
@@ -76,7 +76,7 @@ def check(ctx, clause):
                               ("read of .st_type in %s is never reached with a choice statement: choice statements carry "
                                "FixedPropChoiceStatementSerializer, which overrides %s" % (f.short, f.name)) if dispatch else
                               "%s reads `%s` in a post-merge stage: with disable_or_statements=False the statement can be a "
-                              "FixedPropChoiceStatement, whose st_type raises TypeError" % (f.short, norm(x)),
+                              "FixedPropChoiceStatement, whose st_type raises TypeError" % (f.short, f.key(x)),
                               note=not ctx.reachable(f)))
     return obs, n + ctor_sites
 
